@@ -49,13 +49,34 @@ theorem C06_not_before_children (s : Sys) (c : Cid) (beh : Nat) (e : Env)
   unfold onKilled
   simp [hz, hch]
 
-/-- A repeated kill of an actor that is already stopping (or stopped) is ignored. -/
+/-- A repeated kill of an actor that is already stopping runs nothing again: no behaviour, no notification, no
+message; its only effect is to cancel a restart that is waiting for the children to end (the stop wins, see
+`C06_kill_wins_over_restart`). -/
 theorem C06_kill_once (s : Sys) (c : Cid) (e : Env) (poison : Bool)
     (hm : e.msg = .onKill poison) (hs : e.sys = true) (hz : (s.ctx c).zombie = false)
+    (hst : (s.ctx c).state = .killing) :
+    handle s c e = upd s c (fun x => { x with restarting := none }) := by
+  unfold handle
+  simp [hs, hz, hst, hm]
+
+/-- A restart directive that reaches an actor which is already stopping (killed by its parent or anybody else
+between its failure and the supervisor's decision) is ignored: a stopping actor is never brought back. -/
+theorem C06_restart_ignored_while_stopping (s : Sys) (c : Cid) (e : Env) (poison : Bool)
+    (hm : e.msg = .restart poison) (hs : e.sys = true) (hz : (s.ctx c).zombie = false)
     (hst : (s.ctx c).state = .killing) :
     handle s c e = s := by
   unfold handle
   simp [hs, hz, hst, hm]
+
+/-- The stop wins over a restart in progress: after a kill has reached an actor whose restart waits for its children,
+the actor is no longer restarting, so the completion of its kill chain (`onKilled` once the last child is gone) is a
+termination with clean-up, not a restart. -/
+theorem C06_kill_wins_over_restart (s : Sys) (c : Cid) (e : Env) (poison : Bool)
+    (hm : e.msg = .onKill poison) (hs : e.sys = true) (hz : (s.ctx c).zombie = false)
+    (hst : (s.ctx c).state = .killing) :
+    ((handle s c e).ctx c).restarting = none ∧ ((handle s c e).ctx c).state = .killing := by
+  rw [C06_kill_once s c e poison hm hs hz hst]
+  simp [upd, hst]
 
 /-- A child's death notice removes exactly that child from the parent's children — a
 re-created namesake (a different context with the same path) stays (this is the update
@@ -66,5 +87,18 @@ theorem C06_child_death_removes_only_that_child (ch : List Cid) (who other : Cid
   constructor
   · exact List.mem_filter.mpr ⟨hin, by simpa using hother⟩
   · intro h; have := (List.mem_filter.mp h).2; simp at this
+
+/-- The same for a poison-pill kill (it travels in the user queue, so an actor that is already stopping does not
+execute it and it ends as a dead letter): it still cancels a restart in progress. -/
+theorem C06_poison_kill_wins_over_restart (s : Sys) (c : Cid) (e : Env) (poison : Bool)
+    (hm : e.msg = .onKill poison) (hs : e.sys = false) (hz : (s.ctx c).zombie = false)
+    (hst : (s.ctx c).state = .killing) :
+    ((handle s c e).ctx c).restarting = none ∧ ((handle s c e).ctx c).state = .killing := by
+  unfold handle
+  simp only [hs, hz, hst, hm]
+  simp only [deadLetter, enqueue, upd]
+  by_cases h0 : c = 0
+  · subst h0; simp [hst]
+  · simp [h0, hst]
 
 end Vivid.ActorSys
